@@ -2,6 +2,16 @@
 HOOK_COMMITS = []
 NOT_APPLICABLE = {}
 CLAIMS = {
+    "C16": dict(
+        text="spec/Results.tla defines the meaning of result names per simulation kind (Elastic 2D/3D, Thermal, Beam 1D/2D/3D, PhaseField 2D/3D, HyperElastic, WeakForms with 2 and 3 dofs per node) as tokens "
+        "(field, component | norm | all | von Mises at each Gauss point then element mean). The harness sets u, v, a (and the damage) to mutually distinguishable random arrays - not an equilibrium state - "
+        "evaluates every name of Results_Available() in element and nodal form, abstracts each returned array to the tokens it equals (candidates are built independently from the fields, B, C and K), "
+        "and TLC judges every row against the definition (ok / mismatch / unmodelled). Derived relations are replayed: Wdef = 1/2 u'Ku on arbitrary states, node<->element conversion of constants, "
+        "reactions on a fully constrained edge balance the applied loads (4 element types).",
+        note="Trusted: TLC, token matching at rtol 1e-9, the independent candidate construction (stress = C B u in Kelvin-Mandel components). Names the module does not define are listed as unmodelled in the evidence (not violations).",
+        technique="result-name table recorded from the implementation and validated against a TLA+ definition table (trace validation, exhaustive over advertised names)",
+        design_ref="DESIGN.md 6/C16",
+    ),
     "C12": dict(
         text="spec/FeShapes.tla computes, from the documented rank and type rules, the result descriptor (finite-element array or plain array, shape, or Error) of element-wise "
         "ufuncs, @, dot, ddot, .T, reductions over every axis, Det/Inv/Trace/Transpose and coefficient broadcasting for every operand descriptor with Ne, nPg and tensor sizes "
